@@ -38,14 +38,60 @@ _PER = {'quick': 22, 'thorough': 1500}
 
 
 def plan(tier):
-    return [(fam, _PER[tier]) for fam in gen_cells.FAMILIES]
+    return [(fam, _PER[tier]) for fam in gen_cells.FAMILIES] + \
+        [('many-operands', 4 if tier == 'quick' else 12)]
+
+
+def build_many(case):
+    '''N slab cells and the usual "everything else" cell #1 #2 ... #N: one
+    flat expression with N operands (plus variants: one long intersection,
+    one long union).'''
+    rng = case.rng
+    count = [60, 250, 600, 1000][case.index % 4]
+    deck = M.Deck(f'C01 many-operands {count}')
+    deck.world = 12.0
+    width = 12.0 / count
+    for k in range(count + 1):
+        deck.surfs.append(M.Surf(k + 1, 'px', [round(-6.0 + k * width, 6)]))
+    form = rng.choice(['slabs', 'slabs', 'union'])
+    if form == 'slabs':
+        for k in range(1, count + 1):
+            deck.cells.append(M.Cell(k, mat=1 + k % 3, rho=f'-{1 + k % 3}.5',
+                                     geom=M.AND(M.S(k), M.S(-(k + 1)),
+                                                M.S(-WORLD)),
+                                     imp={'n': '1'}))
+        rest = M.AND(*[M.CELLC(k) for k in range(1, count + 1)], M.S(-WORLD))
+    else:
+        # even slabs as one union of intersections, odd ones as the rest
+        arms = [M.AND(M.S(k), M.S(-(k + 1))) for k in range(1, count + 1, 2)]
+        deck.cells.append(M.Cell(1, mat=1, rho='-1.5',
+                                 geom=M.AND(M.OR(*arms), M.S(-WORLD)),
+                                 imp={'n': '1'}))
+        rest = M.AND(M.CELLC(1), M.S(-WORLD))
+    deck.cells.append(M.Cell(count + 5, mat=2, rho='-2.5', geom=rest,
+                             imp={'n': '1'}))
+    deck.surfs.append(M.Surf(WORLD, 'so', [12.0]))
+    deck.cells.append(M.Cell(count + 6, mat=0, geom=M.S(WORLD),
+                             imp={'n': '0'}))
+    for mat in (1, 2, 3):
+        deck.mats.append(M.Material(mat, [('13027', '1')]))
+    deck.tags.add(f'c01.many-operands.{count}')
+    deck.operands = count
+    return deck
+
+
+WORLD = 5000
 
 
 def build(case):
+    if case.family == 'many-operands':
+        return build_many(case)
     return gen_cells.build(case.rng, case.family)
 
 
 def classify_crash(deck, run_):
+    if run_.exc_type == 'RecursionError' and getattr(deck, 'operands', 0) >= 400:
+        return 'recursion-depth-many-operands'
     if ('compl.cell-in-expr' in deck.tags and run_.exc_type == 'AttributeError'
             and run_.exc_where.endswith('semantics.py:inverse')):
         return 'cellcompl-inside-exprcompl'
@@ -65,7 +111,8 @@ def run(case, ctx):
     out = Outcome()
     deck = build(case)
     out.tags |= deck.tags
-    out.structure = gen_cells.structure_of(deck)
+    out.structure = gen_cells.structure_of(deck) \
+        if case.family != 'many-operands' else deck.title
     run_ = convert_deck(case, ctx, out, deck)
     if not run_.ok:
         if run_.exc_type == 'ValueError' and 'max()' in run_.exc_msg and \
